@@ -54,7 +54,14 @@ def build(repo):
         Rule("R9", "has_been_declared . map_or_else ( || true , | ident | ! ident . is_const ( ) )", "( match has_been_declared { None => true , Some ( ident ) => ! ident . is_const ( ) } )", why="Option::map_or_else -> match"),
     ], log, "Assignment::can_modify_if_applicable")
     check_closed(b, "can_modify_if_applicable")
-    gen = header(log, f"{FILE}: Assignment::can_modify_if_applicable") + prelude("parser.rs") + SPEC + f"""
+    ft = src.fn(FILE, "modify_target", "impl Assignment")
+    bt = translate(ft["body"], [
+        Rule("R3", "bail ! $a", "return Err ( VErr )", why="bail! -> return Err"),
+        Rule("R9", "$x . is_instance_callback_variable ( ) . unwrap_or ( $d )", "res_unwrap_or ( $x . is_instance_callback_variable ( ) , $d )", why="Result::unwrap_or"),
+        Rule("R1", "Ok ( Some ( found . to_owned ( ) ) )", "Ok ( Some ( found ) )", why="Ref<Ident>::to_owned: the identifier itself"),
+    ], log, "Assignment::modify_target")
+    check_closed(bt, "modify_target")
+    gen = header(log, f"{FILE}: Assignment::can_modify_if_applicable, Assignment::modify_target") + prelude("parser.rs") + SPEC + f"""
 impl Assignment {{
     //@ OBL C10.modify.target
     pub fn can_modify_if_applicable(&self, user_data: &UserData, is_modify: bool) -> (r: Result<bool, VErr>)
@@ -74,11 +81,24 @@ impl Assignment {{
     {{
 {render(b, 2)}
     }}
+    //@ OBL C07.modify.target-is-captured
+    // what `modify NAME = v` writes, looked up BEFORE the statement registers anything (innermost scope first: a parameter or a variable declared
+    // directly in the function body is seen): the variable NAME denotes there must be captured -- found beyond a function boundary, or left behind
+    // as the captured variable by an earlier `modify` of this function.  Anything else is refused (D120); an unknown name has no target.
+    pub fn modify_target(user_data: &UserData, name: &VStr) -> (r: Result<Option<Ident>, VErr>)
+        ensures ({{ let t = lookup_skip(user_data, str_view(name), 0);
+            &&& t is None ==> r == Ok::<Option<Ident>, VErr>(None)
+            &&& t is Some ==> (r is Ok <==> (t->Some_0.1 || registered_as_captured(t->Some_0.0)))
+            &&& (t is Some && r is Ok) ==> r->Ok_0 == Some(t->Some_0.0) }}),
+    {{
+{render(bt, 2)}
+    }}
 }}
 }} // verus!
 fn main() {{}}
 """
-    return gen, [Obl("C10.modify.target", ["C10", "C07"], fn="Assignment::can_modify_if_applicable", desc="can_modify_if_applicable: `modify` is accepted only when the name denotes a variable captured from an enclosing function, and then reports that variable's const flag; a variable of the function itself is not a target")], log
+    return gen, [Obl("C07.modify.target-is-captured", ["C07", "C10"], fn="Assignment::modify_target", desc="modify_target: the variable `modify NAME` names, innermost scope first and before the statement registers anything, must be a captured one; a parameter or variable of this function is refused; the result is that variable"),
+                 Obl("C10.modify.target", ["C10", "C07"], fn="Assignment::can_modify_if_applicable", desc="can_modify_if_applicable: `modify` is accepted only when the name denotes a variable captured from an enclosing function, and then reports that variable's const flag; a variable of the function itself is not a target")], log
 
 
 UNITS = [VUnit("c10_can_modify", ["C10", "C07"], "`modify`: the variable tested is the captured variable that is written", build)]
